@@ -3,17 +3,17 @@ from ..core import Script, Rng
 from ..stage import LineStage, replay_line
 from .common import *
 
-ARTEFACTS = ["G1-consts", "G2-rs-portable", "G2-ref-compress", "G15-rs-sse41", "G24-portable-many", "G16-rs-avx2", "G17-rs-sse2", "G21-c-avx512", "G21-c-avx512-prog", "G18-c-sse41", "G19-c-sse2", "G20-c-avx2", "G27-asm-sse41-compress", "G29-asm-sse2-compress", "G30-asm-avx512-compress", "G31-asm-avx512-compress-wgnu", "G32-asm-sse41-compress-wgnu", "G33-asm-sse2-compress-wgnu", "G37-asm-sse41-compress-msvc"]
-EXTRA_PROPS = [("B3.Simd.Sse41Props", "B3/Simd/Sse41Props.lean"), ("B3.Simd.Sse41PropsMany", "B3/Simd/Sse41PropsMany.lean"), ("B3.Props.C05P", "B3/Props/C05P.lean"), ("B3.Simd.Avx2Props", "B3/Simd/Avx2Props.lean"), ("B3.Simd.Sse2Props", "B3/Simd/Sse2Props.lean"), ("B3.Simd.CAvx512Props", "B3/Simd/CAvx512Props.lean"), ("B3.Simd.CSse41Props", "B3/Simd/CSse41Props.lean"), ("B3.Simd.CSse2Props", "B3/Simd/CSse2Props.lean"), ("B3.Simd.CAvx2Props", "B3/Simd/CAvx2Props.lean"), ("B3.Props.C05A", "B3/Props/C05A.lean"), ("B3.Props.C05B", "B3/Props/C05B.lean"), ("B3.Props.C05BW", "B3/Props/C05BW.lean"), ("B3.Props.C05W", "B3/Props/C05W.lean")]
+ARTEFACTS = ["G1-consts", "G2-rs-portable", "G2-ref-compress", "G15-rs-sse41", "G24-portable-many", "G16-rs-avx2", "G17-rs-sse2", "G21-c-avx512", "G21-c-avx512-prog", "G18-c-sse41", "G19-c-sse2", "G20-c-avx2", "G27-asm-sse41-compress", "G29-asm-sse2-compress", "G30-asm-avx512-compress", "G31-asm-avx512-compress-wgnu", "G32-asm-sse41-compress-wgnu", "G33-asm-sse2-compress-wgnu", "G37-asm-sse41-compress-msvc", "G40-asm-sse2-compress-msvc", "G41-asm-avx512-compress-msvc", "G34-asm-sse41-hash-many"]
+EXTRA_PROPS = [("B3.Simd.Sse41Props", "B3/Simd/Sse41Props.lean"), ("B3.Simd.Sse41PropsMany", "B3/Simd/Sse41PropsMany.lean"), ("B3.Props.C05P", "B3/Props/C05P.lean"), ("B3.Simd.Avx2Props", "B3/Simd/Avx2Props.lean"), ("B3.Simd.Sse2Props", "B3/Simd/Sse2Props.lean"), ("B3.Simd.CAvx512Props", "B3/Simd/CAvx512Props.lean"), ("B3.Simd.CSse41Props", "B3/Simd/CSse41Props.lean"), ("B3.Simd.CSse2Props", "B3/Simd/CSse2Props.lean"), ("B3.Simd.CAvx2Props", "B3/Simd/CAvx2Props.lean"), ("B3.Props.C05A", "B3/Props/C05A.lean"), ("B3.Props.C05B", "B3/Props/C05B.lean"), ("B3.Props.C05BW", "B3/Props/C05BW.lean"), ("B3.Props.C05W", "B3/Props/C05W.lean"), ("B3.Props.C05WM", "B3/Props/C05WM.lean"), ("B3.Props.C05M", "B3/Props/C05M.lean")]
 RULE = ("kernel calls, compared with the model's kernels (generated from src/portable.rs, proved = Spec.compress): single-block "
         "kernels on the grid block_len 0..64 x flag byte classes with random cv/block and counters from {0,1,2^32-1,2^32,2^32+1,2^63,"
         "2^64-1,random}; hash_many with num_inputs 0..2*degree+3, blocks in {1,16}, counters 2^32-k (k<=17) and near 2^64 so every "
         "lane sees a carry, increment yes/no, all subsets of nonzero flags/start/end, input offsets 0..63, output offsets 0..31; "
         "xof_many n in 1..40; for Rust Platform::{portable,sse2,sse41,avx2,avx512} in the default (asm via ffi), pure (Rust intrinsics) "
-        "and prefer_intrinsics (C intrinsics) builds, and for every C symbol flavour incl. the Windows-GNU assembly through ms_abi; "
+        "and prefer_intrinsics (C intrinsics) builds, and for every C symbol flavour incl. the Windows-GNU assembly through ms_abi (also with garbage above every narrow argument, `CK dirty 1|2`, which the Microsoft convention allows); Rust hash_many is called with an exact and with a longer output slice; "
         "non-trivial = every call (distinct arguments); distinct = distinct op line")
 ASSUMPTIONS = ["hand-written assembly: the single-block routines (compress_in_place, compress_xof) of the unix and Windows-GNU SSE4.1, SSE2 and "
-               "AVX-512 files and of the MSVC SSE4.1 file are translated instruction by instruction and proved equal to Spec.compress under the "
+               "AVX-512 files and of the three MSVC files are translated instruction by instruction and proved equal to Spec.compress under the "
                "machine semantics B3/Asm/Sse.lean, Avx512Sem.lean, WinSem.lean (trusted; run against the CPU here); the many-input assembly "
                "routines (hash_many, xof_many; the AVX2 files have only these) are not modelled at instruction level: a defect in them confined "
                "to an argument class no generator produces would be missed",
@@ -271,7 +271,7 @@ class SimdModelStage2:
 
 class AsmSemStage:
     """the instruction lists generated from the assembly files (single-block routines compress_in_place / compress_xof of the unix
-    SSE4.1, SSE2 and AVX-512 files, the Windows-GNU SSE4.1, SSE2 and AVX-512 files and the MSVC SSE4.1 file) run by the machine
+    SSE4.1, SSE2 and AVX-512 files, the Windows-GNU and the MSVC SSE4.1, SSE2 and AVX-512 files) run by the machine
     semantics B3/Asm/Sse.lean (+ Avx512Sem.lean, WinSem.lean), against the assembled routines on the CPU, with and without garbage
     in the unused upper bits of the 8-bit arguments (`CK dirty`); also checks that the model run ends `ok returned` after the proved
     step count with the register frame of its convention intact"""
@@ -286,6 +286,8 @@ class AsmSemStage:
         ("sse2", "win_sse2_asm", "RunAsmWin.lean", "B3.Asm.WgnuRun", 569, 576, " saved"),
         # no MASM assembler here: the list translated from the MSVC file is compared with the CPU running the Windows-GNU object
         ("sse41msvc", "win_sse41_asm", "RunAsmWin.lean", "B3.Asm.WgnuRun", 485, 492, " saved"),
+        ("sse2msvc", "win_sse2_asm", "RunAsmMsvc.lean", "B3.Asm.MsvcRun", 569, 576, " saved"),
+        ("avx512msvc", "win_avx512_asm", "RunAsmMsvc.lean", "B3.Asm.MsvcRun", 372, 377, " saved"),
     ]
 
     def __init__(self, seed, n):
@@ -351,6 +353,89 @@ class AsmSemStage:
         return dict(evaluations=evals, distinct=distinct, hist=hist, samples=[], mismatches=mism)
 
 
+class AsmManyStage:
+    """blake3_hash_many_sse41 (unix assembly, 1746 instructions with loops, stack frame and the 4-/2-/1-input paths) as translated
+    (G34) and run by the machine semantics B3/Asm/ManySem.lean, against the assembled routine on the CPU: outputs, no fault,
+    callee-saved registers and rsp restored, no byte outside `out` and the frame touched"""
+    name = "asm-hash-many-semantics-vs-cpu"
+
+    def __init__(self, seed, tier):
+        self.seed, self.tier = seed, tier
+
+    def run(self, lean_exe):
+        from .. import core
+        import subprocess
+        rng = Rng(self.seed)
+        okc, cexe, clog = core.build_c()
+        if not okc:
+            return dict(evaluations=0, distinct=set(), hist={}, samples=[], mismatches=[dict(kind="driver-crash", impl_name="c", ops=[], log_tail=clog[-2000:])])
+        edge = [0, 1, 2**32 - 4, 2**32 - 3, 2**32 - 2, 2**32 - 1, 2**32, 2**32 + 1, 2**33 - 2, 2**63, 2**64 - 9, 2**64 - 4, 2**64 - 2,
+                2**64 - 1, (7 << 32) - 1, (7 << 32) - 5]
+        c_lines, l_lines, meta = [], [], []
+        modes = [0, 0, 1] if self.tier == "quick" else [0] * 9 + [1] * 3      # `CK dirty` setting per repetition
+        reps = len(modes)
+        for n in range(0, 10 if self.tier == "quick" else 24):
+            for blocks in ((1, 16) if n in (3, 7) or self.tier != "quick" else (1,)):
+                for incr in (0, 1):
+                    for rep in range(reps):
+                        counter = rng.choice(edge) if rep % 2 == 0 else rng.randrange(1 << 64)
+                        counter = min(counter, (1 << 64) - 1 - n) if incr else counter
+                        mode = modes[rep]
+                        seed = rng.randrange(1 << 64)
+                        key = rhex(rng, 32)
+                        fl, fs, fe = rng.randrange(256), rng.randrange(256), rng.randrange(256)
+                        inoff, outoff = rng.randrange(64), rng.randrange(64)
+                        r9 = incr if mode == 0 else (incr | 0xA5C3A5C300000000) if mode == 1 else (incr | 0xA5C3A5C3A5C3A500)
+                        # (`CK dirty 2` is not used here: the unix routine consumes all 32 bits of r9d - latent, see DESIGN)
+                        c_lines += [f"CK dirty {mode}", f"CK hmany sse41_asm {n} {blocks} {seed} {key} {counter} {incr} {fl} {fs} {fe} {inoff} {outoff}"]
+                        meta += [None, len(l_lines)]
+                        l_lines.append(f"hmany {n} {blocks} {seed} {key} {counter} {r9} {fl} {fs} {fe} {inoff} {outoff} fast")
+        c_lines.append("CK dirty 0")
+        meta.append(None)
+        rc, out, _ = core.run_driver(cexe, c_lines)
+        rcb, outb = core.run(["lake", "build", "B3.Asm.RunMany"], cwd=core.LEAN_DIR, timeout=7200)
+        if rcb != 0:
+            return dict(evaluations=0, distinct=set(), hist={}, samples=[],
+                        mismatches=[dict(kind="driver-crash", impl_name="c", ops=[], note="B3.Asm.RunMany does not build", log_tail=outb[-1500:])])
+        try:
+            pr = subprocess.run(["lake", "env", "lean", "--run", "RunAsmMany.lean"], cwd=core.LEAN_DIR, input="\n".join(l_lines) + "\n",
+                                stdout=subprocess.PIPE, stderr=subprocess.PIPE, text=True, timeout=6000)
+            mo = pr.stdout.split("\n")
+        except subprocess.TimeoutExpired:
+            mo = []
+        mism, evals = [], 0
+        for i, a in enumerate(c_lines):
+            j = meta[i]
+            if j is None:
+                continue
+            x = out[i] if i < len(out) else "<missing>"
+            y = mo[j] if j < len(mo) else "<missing>"
+            if x == "unsupported":
+                continue
+            evals += 1
+            t = y.split(" ")
+            good = len(t) >= 6 and t[0] == x.split(" ")[0] and t[1:3] == ["ok", "returned"] and t[-2:] == ["regs", "frame"] and " " not in x
+            if x == "" and len(t) >= 5:       # n = 0: nothing is written
+                good = t[-5:-3] == ["ok", "returned"] and t[-2:] == ["regs", "frame"] or good
+            if not good and len(mism) < 6:
+                mism.append(dict(kind="impl-vs-model", impl_name="c", ops=[a], impl_differs=True, impl_output=x[:300], model_output=y[:300],
+                                 note="blake3_hash_many_sse41 on the CPU differs from the translated instruction list under the machine semantics "
+                                      "(or the model run faulted / lost a register / touched memory outside out and its frame); model input: " + l_lines[j][:200]))
+        return dict(evaluations=evals, distinct=set(l_lines), hist={"cases": evals}, samples=[], mismatches=mism)
+
+
+def win_dirty_scripts(rng, n):
+    """the Windows-GNU assembly kernels with garbage above every narrow (8-bit / bool) argument, in the registers and in the 8-byte
+    stack slots alike: the Microsoft x64 convention leaves those bits undefined (callers such as clang / rustc write only the low
+    byte of a stack slot), so the routine itself must extend them"""
+    syms = [x for x in C_SYMS if x.startswith("win_")]
+    out = []
+    for d in (1, 2):
+        ops = single_ops(rng, "CK", syms, n) + many_ops(rng, "CK", syms, 2 * n)
+        out += [Script([f"CK dirty {d}", o, "CK dirty 0"], tags=(f"dirty{d} " + " ".join(o.split(" ")[1:3]),)) for o in ops]
+    return out
+
+
 def normalize(op, out):
     # flavours lacking a kernel / CPUs lacking an instruction set print `unsupported`: not comparable
     return out
@@ -365,9 +450,10 @@ def stages(tier, seed, witness_search=False):
     c_ops = single_ops(rng, "CK", C_SYMS, k) + many_ops(rng, "CK", C_SYMS, k // 2)
     rs_scripts = [Script([o], tags=(" ".join(o.split(" ")[:3]),)) for o in rs_ops]
     c_scripts = [Script([o], tags=(" ".join(o.split(" ")[:3]),)) for o in c_ops]
-    st = [LineStage("rs-asm", rs_scripts), LineStage("rs-pure", rs_scripts, features=("pure",)), LineStage("c-kernels", c_scripts, impl="c"),
+    wd = win_dirty_scripts(rng, 40 if tier == "quick" else 1500)
+    st = [LineStage("rs-asm", rs_scripts), LineStage("rs-pure", rs_scripts, features=("pure",)), LineStage("c-kernels", c_scripts, impl="c"), LineStage("c-win-dirty-narrow-args", wd, impl="c"),
           SimdModelStage(seed + 5, 200 if tier == "quick" else 3000), SimdModelStage2(seed + 6, 60 if tier == "quick" else 1500),
-          AsmSemStage(seed + 7, 40 if tier == "quick" else 2000)]
+          AsmSemStage(seed + 7, 40 if tier == "quick" else 2000), AsmManyStage(seed + 8, tier)]
     if tier == "thorough":
         st.append(LineStage("rs-prefer_intrinsics", rs_scripts, features=("prefer_intrinsics",)))
     return st
@@ -375,9 +461,9 @@ def stages(tier, seed, witness_search=False):
 
 def replay(d, lean_exe):
     st = d.get("stage", "")
-    if st in ("rs-sse41-generated-vs-cpu", "simd-generated-vs-cpu", "asm-semantics-vs-cpu"):
+    if st in ("rs-sse41-generated-vs-cpu", "simd-generated-vs-cpu", "asm-semantics-vs-cpu", "asm-hash-many-semantics-vs-cpu"):
         return dict(still_fails=False, note="re-run the check with the same VERIF_SEED; the model input line is in `note`")
-    if st == "c-kernels":
+    if st in ("c-kernels", "c-win-dirty-narrow-args"):
         return replay_line(d, lean_exe, impl="c")
     feats = () if st in ("rs-asm", "") else (st[3:],)
     return replay_line(d, lean_exe, features=feats)
